@@ -16,7 +16,7 @@ func init() { reg("C10", C10) }
 
 // C10: shadow-copy monitor for ROM.BusReader / ROM.BusWriter.
 func C10(r *vf.Run) {
-	r.Rule = "every bank of images of 32-256 KiB x boundary-directed offsets x read-chunk sizes x write-length histories drawn to end at, one before and beyond the bank end; the whole image is diffed against a shadow after every call; a cell is (api, offset class, history shape, end position)"
+	r.Rule = "every bank of images of 32-256 KiB x boundary-directed offsets x read-chunk sizes x write-length histories drawn to end at, one before and beyond the bank end; the whole image is diffed against a shadow after every call; plus several readers/writers obtained from one ROM and used in interleaved order; a cell is (api, offset class, history shape, end position)"
 	r.Assume = []string{"banks only partly inside the image are skipped (the statement speaks of banks inside the image)"}
 
 	offClass := func(off uint32) string {
@@ -283,7 +283,141 @@ func C10(r *vf.Run) {
 			r.MergeCells(cells)
 		})
 	}
+	if r.Phase("interleaved-handles") {
+		// several readers and writers obtained from ONE ROM and used in interleaved order:
+		// each must keep serving its own window
+		chunks := r.N(32, 1000)
+		r.Parallel(runtime.NumCPU(), chunks, func(w, ci int) {
+			g := r.Rand("multi").Fork(uint64(ci))
+			cells := map[string]int64{}
+			for k := 0; k < 100 && !r.TooMany(); k++ {
+				nb := 2 + g.Intn(6)
+				img := g.Bytes(nb * 0x8000)
+				rom, err := snes.NewROM("c10m", img)
+				if err != nil {
+					r.Fail("newrom", err.Error(), nil)
+					continue
+				}
+				shadow := append([]byte(nil), img...)
+				type handle struct {
+					rd     io.Reader
+					wr     io.Writer
+					addr   uint32
+					lo, hi int
+					cur    int // next position in the window
+					done   bool
+					got    []byte
+				}
+				nh := 2 + g.Intn(3)
+				var hs []*handle
+				usedBanks := map[uint32]bool{}
+				var desc []string
+				for i := 0; i < nh; i++ {
+					bank := uint32(g.Intn(nb))
+					off := uint32(0x8000 + g.Intn(0x8000))
+					if g.Intn(3) == 0 {
+						off = 0xFFF0 + uint32(g.Intn(16))
+					}
+					h := &handle{addr: bank<<16 | off, lo: int(bank<<15 | (off - 0x8000)), hi: int(bank<<15) + 0x8000}
+					h.cur = h.lo
+					// writers get a bank of their own so that no live reader window changes under it
+					if g.Intn(3) == 0 && !usedBanks[bank] {
+						h.wr = rom.BusWriter(h.addr)
+						desc = append(desc, fmt.Sprintf("w%d=BusWriter($%06x)", i, h.addr))
+					} else {
+						writerBank := false
+						for _, o := range hs {
+							if o.wr != nil && o.addr>>16 == bank {
+								writerBank = true
+							}
+						}
+						if writerBank {
+							bank = (bank + 1) % uint32(nb)
+							h.addr = bank<<16 | off
+							h.lo, h.hi = int(bank<<15|(off-0x8000)), int(bank<<15)+0x8000
+							h.cur = h.lo
+							for _, o := range hs {
+								if o.wr != nil && o.addr>>16 == bank {
+									h = nil
+									break
+								}
+							}
+							if h == nil {
+								continue
+							}
+						}
+						h.rd = rom.BusReader(h.addr)
+						desc = append(desc, fmt.Sprintf("r%d=BusReader($%06x)", i, h.addr))
+					}
+					usedBanks[h.addr>>16] = true
+					hs = append(hs, h)
+				}
+				if len(hs) < 2 {
+					continue
+				}
+				r.Eval(1)
+				bad := false
+				for step := 0; step < 60 && !bad; step++ {
+					h := hs[g.Intn(len(hs))]
+					if h.done {
+						continue
+					}
+					if h.rd != nil {
+						buf := make([]byte, 1+g.Intn(64))
+						n, err := h.rd.Read(buf)
+						want := shadow[h.cur:min(h.cur+n, h.hi)]
+						if h.cur+n > h.hi || !bytes.Equal(buf[:n], want) {
+							r.Fail("interleaved-reader", fmt.Sprintf("with handles %v live on one ROM, reader for $%06x returned bytes that are not the next bytes of its own window (position %d/%d, n=%d)", desc, h.addr, h.cur-h.lo, h.hi-h.lo, n), desc)
+							bad = true
+							break
+						}
+						h.cur += n
+						if err != nil {
+							h.done = true
+							if err != io.EOF || h.cur < h.hi-1 {
+								key := "interleaved-reader"
+								r.Fail(key, fmt.Sprintf("with handles %v live on one ROM, reader for $%06x ended with %v after %d of %d bytes", desc, h.addr, err, h.cur-h.lo, h.hi-h.lo), desc)
+								bad = true
+							} else if h.cur == h.hi-1 {
+								r.Fail("reader-omits-last-byte-of-bank", fmt.Sprintf("reader for $%06x stopped one byte before the end of its bank", h.addr), nil)
+							}
+						}
+						cells["multi:read"]++
+					} else {
+						p := g.Bytes(1 + g.Intn(48))
+						n, err := h.wr.Write(p)
+						fits := h.cur+len(p) <= h.hi
+						if (err == nil) != fits || (err == nil && n != len(p)) {
+							r.Fail("interleaved-writer", fmt.Sprintf("with handles %v live on one ROM, writer for $%06x: Write(%d bytes) at window position %d/%d = (%d,%v)", desc, h.addr, len(p), h.cur-h.lo, h.hi-h.lo, n, err), desc)
+							bad = true
+							break
+						}
+						copy(shadow[h.cur:], p[:n])
+						h.cur += n
+						if err != nil {
+							h.done = true
+						}
+						if !bytes.Equal(rom.Contents, shadow) {
+							r.Fail("interleaved-writer", fmt.Sprintf("with handles %v live on one ROM, a write through the writer for $%06x landed at file offset %d", desc, h.addr, firstDiff(rom.Contents, shadow)), desc)
+							bad = true
+							break
+						}
+						cells["multi:write"]++
+					}
+				}
+				if !bad {
+					cells[fmt.Sprintf("multi:handles%d", len(hs))]++
+				}
+				if ci == 0 && k == 0 {
+					r.Sample(map[string]interface{}{"one_rom_handles": desc})
+				}
+			}
+			r.MergeCells(cells)
+		})
+	}
 	if r.OnlyPhase == "" {
+		r.Require("multi:read")
+		r.Require("multi:write")
 		r.Require("low:below8000")
 		r.Require("write:ffff:shape0:exactly-at-end")
 	}
